@@ -109,8 +109,8 @@ Print Assumptions C16_leaf_encode_total_len_u32_differs.
 From Coq Require Import List String.
 Import ListNotations.
 Theorem C16_leaf_reads_rich :
-  Leaf.L_rich_structure_RichRecord_decode_args = ["key : u32"%string; "values[0] : u32"%string; "values[1] : u32"%string] /\
-  Leaf.L_rich_structure_RichRecord_encode_args = ["self.build : u16"%string; "self.product : u16"%string; "self.count : u32"%string; "key : u32"%string] /\
+  Leaf.L_rich_structure_RichRecord_decode_args = ["arg1 : u32"%string; "arg2[0] : u32"%string; "arg2[1] : u32"%string] /\
+  Leaf.L_rich_structure_RichRecord_encode_args = ["self.build : u16"%string; "self.product : u16"%string; "self.count : u32"%string; "arg1 : u32"%string] /\
   Leaf.L_rich_structure_checksum__record_step_args = ["csum : u32"%string; "record.build : u16"%string; "record.product : u16"%string; "record.count : u32"%string] /\
   Leaf.L_rich_structure_encode__total_len_args = ["n : usize"%string; "xor_key : u32"%string].
 Proof. exact LeafRich.leaf_reads_rich. Qed.
